@@ -363,7 +363,7 @@ RULE_ADDENDA_7 = {
     "C15": "a deterministic plan (merge-restart) whose leaves were built and persisted by OTHER processes (files from before a restart; same vectors in the same order under different ids), merged, and merged again with a further such file; a deterministic plan (merge-identical) merges two inputs of 100000 documents that all carry the same vector: the output must hold and count every one of them",
     "C16": "15 % of searches are failed by the engine (the handle must survive and other handles be unaffected); the deterministic history fails a search of a second handle, closes it, runs four expiry passes and searches through the first handle",
     "C17": "under the vectors tag a file reported as complete must hold every surviving vector",
-    "C18": "every engine-operation closure point is tried 3..6 times (the order in which sections are merged varies per call); a deterministic plan (cancel-fixed-vectors) merges three inputs with vectors in one field; a success must hold every surviving vector",
+    "C18": "every engine-operation closure point is tried 3..24 times (the order in which sections are merged varies per call); a deterministic plan (cancel-fixed-vectors) merges three inputs with vectors in one field; a success must hold every surviving vector",
 }
 for _k, _v in RULE_ADDENDA_7.items():
     PROPS[_k]["rule"] += "; added after the seventh round: " + _v
